@@ -103,6 +103,8 @@ type fakeClient struct {
 	// collections), where it differs from the vBucket's high seqno
 	collHigh map[uint16]uint64
 	live     map[uint16]bool // vBuckets whose stream was requested successfully and not closed since
+	// closeNotFound: CloseStream of a vBucket without a live stream is answered "no such stream", as a node does
+	closeNotFound bool
 }
 
 func newFakeClient(numVb int) *fakeClient {
@@ -216,7 +218,13 @@ func (f *fakeClient) CloseStream(vb uint16) error {
 	defer f.inflight.Add(-1)
 	f.mu.Lock()
 	f.closes = append(f.closes, vb)
+	wasLive := f.live[vb]
 	delete(f.live, vb)
+	if f.closeNotFound && !wasLive {
+		// what a node answers to DCP_CLOSE_STREAM for a vBucket that has no stream (any more): KEY_ENOENT
+		f.mu.Unlock()
+		return gocbcore.ErrDocumentNotFound
+	}
 	o := f.obs[vb]
 	onClose, end := f.onClose, f.endOnClose
 	f.mu.Unlock()
@@ -259,6 +267,17 @@ func (f *fakeClient) GetCollectionIDs(string, []string) (map[uint32]string, erro
 func (f *fakeClient) GetAgentQueues() []*models.AgentQueue { return nil }
 func (f *fakeClient) GetAgent() *gocbcore.Agent            { return f.agent }
 func (f *fakeClient) GetMetaAgent() *gocbcore.Agent        { return nil }
+
+// serverEnd: the server ends the vBucket's stream on its own with the given cause (nil = end of a finite stream)
+func (f *fakeClient) serverEnd(vb uint16, cause error) {
+	f.mu.Lock()
+	o := f.obs[vb]
+	delete(f.live, vb)
+	f.mu.Unlock()
+	if o != nil {
+		o.End(models.DcpStreamEnd{VbID: vb}, cause)
+	}
+}
 
 // liveRange: the vBuckets streamed right now, as "lo-hi" when contiguous (else the list)
 func (f *fakeClient) liveRange() string {
